@@ -110,6 +110,14 @@ pub fn h_c10_missing_prefixes() {
     let ch = build_chain(&mut xot, &i, sym::param("CFG", 5), false);
     let target = sym::choose("target", 4); // document, root element, inner elements
     let node = [ch.doc, ch.e[0], ch.e[1], ch.e[2]][target];
+    // an attribute in the xml namespace never needs a declaration
+    let lang = xot.add_name_ns("lang", xot.xml_namespace());
+    xot.set_attribute(ch.e[1], lang, "en");
+    // a prefix with the name the repair would generate next, declared two levels below the repaired node
+    if target < 2 && sym::choose("n0decl", 2) == 1 {
+        let pn0 = xot.add_prefix("n0");
+        xot.set_namespace(ch.e[2], pn0, i.b);
+    }
     let before = canon(&xot, ch.doc);
     sym::class("KF-no-namespace-element-under-default-namespace", default_capture(&i, &xot, &ch, 0));
     let r = xot.create_missing_prefixes(node);
